@@ -92,6 +92,35 @@ theorem line_fixpoint (cur : String) (c : ℕ) (rates : List XRate) (r : Rule) (
     rw [stored_line_totals_ignored cur c rates r _ it' hit', hfix]
     rfl
 
+/-- **document_fixpoint** (every document of stable lines, document discounts/charges and advances —
+any number of them, any quantities, prices, percentages, bases, tax combos, included-tax removal, both
+rules, with or without payment details): if it calculates to `out`, then the document read back from
+`out` (presented lines, discounts, charges, advances, due dates) calculates to exactly `out` again —
+same lines, same tax summary, same totals.  "Stable" excludes only fixed amounts with more decimals
+than they are presented with (the known finding) and lines with breakdowns or foreign-currency
+items, which the byte-level differential run covers. -/
+theorem document_fixpoint (d : Doc) (out : Out) (t : Totals) (hs : DocStable d)
+    (h : calculate exactOps d = .ok out) (ht : out.totals = some t) :
+    calculate exactOps (rereadDoc d out) = .ok out :=
+  calculate_fixpoint d out t hs h ht
+
+/-- the re-read document is stable again, so the fixpoint holds for any number of rounds -/
+theorem document_fixpoint_iterates (d : Doc) (out : Out) (t : Totals) (hs : DocStable d)
+    (h : calculate exactOps d = .ok out) (ht : out.totals = some t) (n : ℕ) :
+    calculate exactOps ((fun x => rereadDoc x out)^[n] d) = .ok out := by
+  induction n with
+  | zero => exact h
+  | succ n ih =>
+    rw [Function.iterate_succ_apply']
+    -- reading back the same `out` twice is reading it back once
+    have hidem : ∀ x : Doc, rereadDoc (rereadDoc x out) out = rereadDoc x out := fun x => rfl
+    cases n with
+    | zero => exact calculate_fixpoint d out t hs h ht
+    | succ m =>
+      rw [Function.iterate_succ_apply', hidem]
+      rw [Function.iterate_succ_apply'] at ih
+      exact ih
+
 /-- **counter-example (known finding)**: price 10.00, quantity 1, fixed line
 discount 0.005: the first calculation presents total 10.00 and stores the
 discount as 0.01; calculating the re-read line presents 9.99. -/
@@ -162,5 +191,55 @@ theorem stmts_Totals_reset_as_modelled : stmts_Totals_reset =
     ["t.Sum = zero", "t.Discount = nil", "t.Charge = nil", "t.TaxIncluded = nil", "t.Total = zero", "t.Taxes = nil", "t.Tax = zero", "t.TotalWithTax = zero", "t.Payable = zero", "t.Advances = nil", "t.Due = nil"] := rfl
 
 end ExpectCalc
+
+/-- non-vacuity of `document_fixpoint`: a document with two taxed lines (one with a percentage discount
+and a fixed charge), a document discount with an explicit base, included VAT, an advance and a due
+date meets `DocStable`, calculates, and its re-read form calculates to the same result -/
+def stableDoc : Doc :=
+  { cur := "EUR", c := 2, rule := .precise, includes := some "VAT",
+    lines := [{ qty := ⟨3, 0⟩, item := some { price := some ⟨10005, 3⟩, cur := "", sub := 2, alts := [] },
+                discounts := [{ percent := some ⟨⟨10, 2⟩⟩, base := none, amount := ⟨0, 0⟩, rate := none, quantity := none }],
+                charges := [{ percent := none, base := none, amount := ⟨125, 2⟩, rate := none, quantity := none }],
+                breakdown := [],
+                taxes := [{ cat := "VAT", country := "", key := "standard", percent := some ⟨⟨21, 2⟩⟩,
+                            surcharge := none, ext := "", retained := false }] },
+              { qty := ⟨15, 1⟩, item := some { price := some ⟨799, 2⟩, cur := "", sub := 2, alts := [] },
+                discounts := [], charges := [], breakdown := [],
+                taxes := [{ cat := "VAT", country := "", key := "reduced", percent := some ⟨⟨10, 2⟩⟩,
+                            surcharge := none, ext := "", retained := false }] }],
+    discounts := [{ percent := some ⟨⟨5, 2⟩⟩, base := some ⟨2000, 2⟩, amount := ⟨0, 0⟩,
+                    taxes := [{ cat := "VAT", country := "", key := "standard", percent := some ⟨⟨21, 2⟩⟩,
+                                surcharge := none, ext := "", retained := false }] }],
+    charges := [], rates := [], rounding := none, hasPayment := true,
+    advances := [{ percent := none, amount := ⟨1000, 2⟩ }], dues := [{ percent := some ⟨⟨100, 2⟩⟩, amount := ⟨0, 0⟩ }] }
+
+example : DocStable stableDoc := by
+  refine ⟨?_, ?_, ?_, ?_⟩
+  · intro l hl
+    simp only [stableDoc, List.mem_cons, List.mem_nil_iff, or_false] at hl
+    rcases hl with rfl | rfl
+    · refine ⟨rfl, ⟨10005, 3⟩, rfl, rfl, by decide, ?_, ?_⟩
+      · intro x hx
+        simp only [List.mem_singleton] at hx
+        subst hx
+        exact Or.inl ⟨_, rfl, rfl⟩
+      · intro x hx
+        simp only [List.mem_singleton] at hx
+        subst hx
+        exact Or.inr (Or.inr (by decide))
+    · refine ⟨rfl, ⟨799, 2⟩, rfl, rfl, by decide, ?_, ?_⟩ <;> intro x hx <;> simp at hx
+  · intro x hx
+    simp only [stableDoc, List.mem_singleton] at hx
+    subst hx
+    exact Or.inl ⟨_, rfl, rfl⟩
+  · intro x hx
+    simp [stableDoc] at hx
+  · intro a ha
+    simp only [stableDoc, List.mem_singleton] at ha
+    subst ha
+    exact Or.inr (by decide)
+
+example : ((calculate exactOps stableDoc).toOption.bind (·.totals)).map (fun t => (t.sum, t.payable, t.due)) =
+    some (⟨4025, 2⟩, ⟨3925, 2⟩, some ⟨2925, 2⟩) := by decide
 
 end GoblVerif.Props.C04
